@@ -75,8 +75,10 @@ def build(it, P):
     s2 = mk("String", key="sk2", value=7, start_line=9, raw="SRAW2")
     p = mk("Preamble", value="PV", start_line=10, raw="PRAW")
     c = mk("ExplicitComment", comment="CV", start_line=11, raw="CRAW")
+    held = mk("Entry", entry_type="article", key="held", start_line=20, raw="HRAW", fields=AList([mk("Field", key="title", value="HELD-TITLE", start_line=21)]))
+    meb = mk("MiddlewareErrorBlock", held, ExcVal("ValueError", ["earlier middleware failed"]))
     lib = new_obj(it, P, "library", "Library")
-    call(it, lib, "add", AList([e, s, s2, p, c]))
+    call(it, lib, "add", AList([e, s, s2, p, c, meb]))
     return lib, e, s, np
 
 
@@ -123,10 +125,15 @@ def run(P: Program, rep: Report):
                     continue
                 it, bl, e, s, np = v
                 probs = []
-                if len(bl) != 5:
-                    probs.append(("R1", "blocks", f"{len(bl)} blocks after the transformation, 5 before"))
+                if len(bl) != 6:
+                    probs.append(("R1", "blocks", f"{len(bl)} blocks after the transformation, 6 before"))
                 else:
-                    b0, b1, b2, b3, b4 = bl
+                    b0, b1, b2, b3, b4, b5 = bl
+                    inner = it.get_attr(b5, "ignore_error_block") if isinstance(b5, AObj) and b5.cls.name == "MiddlewareErrorBlock" else None
+                    iv = it.get_attr(it.iterate(it.get_attr(inner, "fields"))[0], "value") if isinstance(inner, AObj) else None
+                    if iv != "HELD-TITLE" or "HELD-TITLE" in hooks.calls:
+                        probs.append(("R1", "failed-block-untouched", f"the entry held by an earlier middleware's error block is converted as well (title {iv!r}): "
+                                                                        f"other blocks, failed ones included, are not touched"))
                     entry_fail = any(x in fail_on for x in ("T", "F1", "F2", "L1", "J1"))
                     if entry_fail:
                         ok = isinstance(b0, AObj) and b0.cls.name == "MiddlewareErrorBlock" and it.get_attr(b0, "ignore_error_block") is e \
@@ -183,6 +190,41 @@ def run(P: Program, rep: Report):
                 if not probs:
                     rep.ok("C18.R1" if not fail_on else "C18.R3", f"{cfg}", cls.loc)
 
+    rep.rule("C18.R8", "a failure stays with its block: when the conversion of one @string (or one entry) fails, the blocks after it - further "
+                       "@strings, entries - are converted as usual and are no error blocks; nor does the failure show in the next library the same "
+                       "instance transforms")
+    for label, cls in classes.items():
+        for first_kind in ("string", "entry"):
+            hooks = Hooks(["BAD"], "conversion failed")
+
+            def carry(ctx, cls=cls, first_kind=first_kind):
+                it = driver_interp(P, ctx, "middlewares.latex_encoding", {}, hooks)
+                mk = lambda c, *a, **k: new_obj(it, P, "model", c, *a, **k)
+                def lib_of(tag, bad):
+                    s_bad = mk("String", key=f"bad{tag}", value="BAD" if bad else "OK0", start_line=1, raw="r0") if first_kind == "string" else \
+                        mk("Entry", entry_type="a", key=f"bad{tag}", start_line=1, raw="r0", fields=AList([mk("Field", key="title", value="BAD" if bad else "OK0", start_line=2)]))
+                    s_ok = mk("String", key=f"ok{tag}", value="OK1", start_line=3, raw="r1")
+                    e_ok = mk("Entry", entry_type="a", key=f"e{tag}", start_line=4, raw="r2", fields=AList([mk("Field", key="title", value="OK2", start_line=5)]))
+                    s_ok2 = mk("String", key=f"ok2{tag}", value="OK3", start_line=6, raw="r3")
+                    lib = new_obj(it, P, "library", "Library")
+                    call(it, lib, "add", AList([s_bad, s_ok, e_ok, s_ok2]))
+                    return lib
+                try:
+                    mw = it.construct(cls, [], {})
+                    o1 = call(it, mw, "transform", lib_of("1", True))
+                    o2 = call(it, mw, "transform", lib_of("2", False))
+                except Raised as r:
+                    return ("raise", r.cls_name())
+                except (Unsupported, LoopBound) as u:
+                    raise AnalysisError(f"C18.R8: analyser cannot follow {cls.name}: {u}")
+                return ("return", [[b.cls.name if isinstance(b, AObj) else repr(b) for b in it.iterate(it.get_attr(o, "blocks"))] for o in (o1, o2)])
+            for ctx, (kind, v) in explore(carry, 50):
+                first = "String" if first_kind == "string" else "Entry"
+                want = [["MiddlewareErrorBlock", "String", "Entry", "String"], [first, "String", "Entry", "String"]]
+                rep.check(kind == "return" and v == want, "C18.R8", f"{label}:failure-stays-with-its-block:{first_kind}-first", cls.loc,
+                          f"{cls.name}: a library whose first block ({first_kind}) fails to convert, then a clean library through the same instance, give blocks "
+                          f"{v!r}; expected {want!r}")
+
     rep.rule("C18.R5", "every application converts: applying the middleware a second time to the blocks it produced (same or fresh "
                        "instance, after the other direction or not) converts the values again - decoding what was encoded after an earlier "
                        "decode must not be skipped")
@@ -206,7 +248,7 @@ def run(P: Program, rep: Report):
                 except (Unsupported, LoopBound) as u:
                     raise AnalysisError(f"C18.R5: analyser cannot follow {cls.name}: {u}")
                 bl = it.iterate(it.get_attr(out, "blocks"))
-                if len(bl) != 5 or not all(isinstance(b, AObj) for b in bl[:2]) or bl[0].cls.name != "Entry" or bl[1].cls.name != "String":
+                if len(bl) != 6 or not all(isinstance(b, AObj) for b in bl[:2]) or bl[0].cls.name != "Entry" or bl[1].cls.name != "String":
                     return ("blocks", [repr(b) for b in bl])
                 tv = it.get_attr(it.iterate(it.get_attr(bl[0], "fields"))[0], "value")
                 return ("values", tv, it.get_attr(bl[1], "value"), len(seq))
@@ -250,6 +292,57 @@ def run(P: Program, rep: Report):
                       f"after a {first} middleware converted one library, a separate {second} middleware on another library with the same texts yields "
                       f"{[(x, getattr(x, 'how', None)) for x in v[1:]]!r}: not converted by its own converter ({want_method})")
 
+    rep.rule("C18.R7", "the keep-math rule of the encoder (the regular expression its constructor hands to the conversion rule) keeps exactly formulas: it matches "
+                       "`$x$` inside a text, does not start at an escaped dollar, and does not take two adjacent dollars `$$` for a formula "
+                       "(kept verbatim they would be read back as display math)")
+    import re as _re
+    enc_cls = classes["encode"]
+    pats = []
+
+    def regexes_in(v, out):
+        if type(v).__name__ == "RegexObj":
+            out.append(v.rx.pattern)
+        elif isinstance(v, (list, tuple)):
+            for x in v:
+                regexes_in(x, out)
+        elif isinstance(v, AList):
+            for x in v.items:
+                regexes_in(x, out)
+        elif isinstance(v, dict):
+            for x in v.values():
+                regexes_in(x, out)
+
+    def build_keep_math(ctx):
+        hooks = Hooks([])
+        it = driver_interp(P, ctx, "middlewares.latex_encoding", {}, hooks)
+        try:
+            it.construct(enc_cls, [], {"keep_math": True, "enclose_urls": False})
+        except (Raised, Unsupported) as e_:
+            return str(e_)
+        return hooks
+    for ctx, h in explore(build_keep_math, 5):
+        if isinstance(h, str):
+            raise AnalysisError(f"C18.R7: analyser cannot follow the encoder's constructor: {h}")
+        for tag, a_, kw_ in h.ext_calls:
+            if "UnicodeToLatexConversionRule" in tag:
+                found = []
+                regexes_in(list(a_), found)
+                regexes_in(kw_, found)
+                pats += [(pv, enc_cls.node.lineno) for pv in found if (pv, enc_cls.node.lineno) not in pats]
+    rep.require_count("C18.R7", "keep-math patterns handed to the conversion rule by the encoder's constructor", len(pats), 1)
+    for pv, ln in pats:
+        try:
+            rx_ = _re.compile(pv)
+        except _re.error as e_:
+            rep.fail("C18.R7", "math-pattern:compiles", f"{mod.relpath}:{ln}", f"the math pattern {pv!r} does not compile: {e_}")
+            continue
+        probes = [("a $x^2$ b", "$x^2$"), ("$$", None), ("a$$", None), ("$$ 5", None), ("cost \\$5 and \\$6", None), ("no math", None), ("$a$", "$a$")]
+        for text, want in probes:
+            m2 = rx_.search(text)
+            got = m2.group(0) if m2 else None
+            rep.check(got == want, "C18.R7", f"math-pattern:{text!r}", f"{mod.relpath}:{ln}",
+                      f"the keep-math pattern {pv!r} on {text!r} keeps {got!r} verbatim, expected {want!r}")
+
     rep.rule("C18.R4", "options: a custom encoder/decoder is used as given and cannot be combined with the other options "
                        "(ValueError); keep_math / enclose_urls select the conversion rules; keep_braced_groups / keep_math_mode "
                        "reach the decoder's constructor")
@@ -265,8 +358,8 @@ def run(P: Program, rep: Report):
                 return ("raise", r.cls_name(), hooks)
         custom = Unknown("custom-converter", "object")
         for ctx, (k, mw, h) in explore(lambda c: one(c, {kw_custom: custom}), 5):
-            attr = "_encoder" if label == "encode" else "_decoder"
-            rep.check(k == "ok" and mw.attrs.get(attr) is custom, "C18.R4", f"{label}:custom-converter-used", cls.loc,
+            # the instance keeps the given converter (in whatever attribute) - R5/R6 show that it is the one that converts
+            rep.check(k == "ok" and any(v_ is custom for v_ in mw.attrs.values()), "C18.R4", f"{label}:custom-converter-used", cls.loc,
                       f"{cls.name}({kw_custom}=X) does not use X ({k})")
         for o in opts:
             for ctx, (k, mw, h) in explore(lambda c: one(c, {kw_custom: custom, o: True}), 5):
